@@ -430,10 +430,12 @@ func (p *printer) node(n *Node, ind int) {
 		}
 	case "doctype":
 		p.w("<!DOCTYPE html>")
-	case "style":
-		p.w("<style>" + n.Text + "</style>")
-	case "script":
-		p.w("<script>" + n.Text + "</script>")
+	case "style", "script":
+		// raw-text elements take attributes like any other element (n.Name is not set for them)
+		tag := *n
+		tag.Name = n.Kind
+		p.openTag(&tag, ind)
+		p.w(">" + n.Text + "</" + n.Kind + ">")
 	default:
 		panic("tgen: unknown node kind " + n.Kind)
 	}
